@@ -19,7 +19,9 @@ int main(int argc, char **argv) {
     std::string prefix = argv[4];
     Report R;
     Tape failTape;
+    alarm(120);
     bool ok = exhaustive(R, k, n, failTape);
+    alarm(0);
     R.write(prefix);
     if (!ok) {
       failTape.save(prefix + ".fail.tape");
